@@ -22,6 +22,8 @@ CONSTANTS Order,      \* sequence of child names in hook order, e.g. <<"a","b","
           ChecksSet,  \* subset of BOOLEAN: status checks configured?
           Policies,   \* subset of {"fair","noOG","zeroOG","strOG","stuck"}: how children become healthy (zeroOG / strOG:
                       \* status.observedGeneration is 0 / not a number, which the code treats as "not reported")
+          Presets,    \* subset of BOOLEAN: right after the first spec change somebody else edits every child to the NEW content
+                      \* (a default made explicit): such a child needs a write that changes nothing but the last-applied record
           GenSels,    \* subset of BOOLEAN: generateSelector (children are selected by a controller-uid label the controller adds itself)
           ScaleRevs,  \* subset of BOOLEAN: the revisioned field also decides the SET of children (revision 2 drops the last one)
           Variant,    \* "code" | "intended"
@@ -35,14 +37,15 @@ Pos(c) == CHOOSE i \in DOMAIN Order : Order[i] = c
 MaxRev == 3
 Revs   == 1..MaxRev
 \* og: observedGeneration in the child's status: "none" (not reported), "ok" (caught up), "lag"
-NoKid  == [live |-> FALSE, v |-> 0, nv |-> 0, healthy |-> FALSE, og |-> "none"]
+\* v: revision the content comes from; lav: revision recorded in the last-applied annotation
+NoKid  == [live |-> FALSE, v |-> 0, lav |-> 0, nv |-> 0, healthy |-> FALSE, og |-> "none"]
 NoRev  == [live |-> FALSE, names |-> {}]
 First(S) == CHOOSE c \in S : \A d \in S : Pos(c) <= Pos(d)
 
 \* perturbations: [round, op, kid]
 PertOps == {"spec", "delkid", "scaledown", "scaleup", "nonrev"}
-VARIABLES rev, nonrev, names, kid, revs, cond, last, round, plan, method, checks, policy, owncond, scalerev, gensel, trace
-vars == <<rev, nonrev, names, kid, revs, cond, last, round, plan, method, checks, policy, owncond, scalerev, gensel, trace>>
+VARIABLES rev, nonrev, names, kid, revs, cond, last, round, plan, method, checks, policy, owncond, scalerev, gensel, preset, trace
+vars == <<rev, nonrev, names, kid, revs, cond, last, round, plan, method, checks, policy, owncond, scalerev, gensel, preset, trace>>
 
 Last0 == [moved |-> {}, gated |-> {}, gateOk |-> TRUE, firstNeeding |-> {}, writes |-> 0, oldOk |-> TRUE, nonrevOk |-> TRUE, sync |-> FALSE]
 \* perturbations happen while the rollout is in flight (rounds 2 .. 2 + 2 n)
@@ -60,14 +63,14 @@ Init ==
   /\ kid = [c \in Kids |-> NoKid] /\ revs = [r \in Revs |-> NoRev]
   /\ cond = "None" /\ last = Last0 /\ round = 0 /\ trace = <<>>
   /\ method \in Methods /\ checks \in ChecksSet /\ owncond \in OwnConds
-  /\ policy \in Policies /\ scalerev \in ScaleRevs /\ gensel \in GenSels
+  /\ policy \in Policies /\ scalerev \in ScaleRevs /\ gensel \in GenSels /\ preset \in Presets
   /\ \E n \in 0..MaxPert : \E p \in [1..n -> Perts] : plan = p /\ PlanOK(p)
 
 \* ---- one sync (a pure function of the state record s) -----------------------------------------
 \* s == [rev, nonrev, names, kid, revs, cond]
 \* can the sync see the observed child under the name it looks it up with?
 Seen(s, c)        == s.kid[c].live /\ Variant = "intended"      \* "code": namespaced children are never found
-UpToDate(s, c, r) == s.kid[c].live /\ s.kid[c].v = r /\ s.kid[c].nv = s.nonrev
+UpToDate(s, c, r) == s.kid[c].live /\ s.kid[c].v = r /\ s.kid[c].lav = r /\ s.kid[c].nv = s.nonrev
 Happy(s, c)       == /\ (checks => s.kid[c].healthy)
                      /\ (method = "RollingInPlace") => s.kid[c].og # "lag"
 Others(s)         == { r \in Revs : r # s.rev /\ s.revs[r].live }
@@ -99,9 +102,11 @@ Assigned(s, cl, c) == LET olds == { r \in Revs : r # s.rev /\ c \in cl[r] } IN I
 Manage(s, cl) == [c \in Kids |->
                  IF c \notin Want(s) THEN NoKid                                   \* owned and not desired: deleted
                  ELSE LET dv == Assigned(s, cl, c) IN
-                      IF ~s.kid[c].live THEN [live |-> TRUE, v |-> dv, nv |-> s.nonrev, healthy |-> FALSE, og |-> "none"]
-                      ELSE IF s.kid[c].v = dv /\ s.kid[c].nv = s.nonrev THEN s.kid[c]
-                      ELSE IF method = "RollingInPlace" THEN [s.kid[c] EXCEPT !.v = dv, !.nv = s.nonrev, !.og = IF @ = "none" THEN "none" ELSE "lag"]
+                      IF ~s.kid[c].live THEN [live |-> TRUE, v |-> dv, lav |-> dv, nv |-> s.nonrev, healthy |-> FALSE, og |-> "none"]
+                      ELSE IF s.kid[c].v = dv /\ s.kid[c].lav = dv /\ s.kid[c].nv = s.nonrev THEN s.kid[c]
+                      \* (an update that only rewrites the last-applied record does not touch the spec: the generation stays)
+                      ELSE IF method = "RollingInPlace" THEN [s.kid[c] EXCEPT !.v = dv, !.lav = dv, !.nv = s.nonrev,
+                                                                               !.og = IF @ = "none" \/ (s.kid[c].v = dv /\ s.kid[c].nv = s.nonrev) THEN @ ELSE "lag"]
                       ELSE NoKid]
 SyncEffect(s) ==
   LET cl0 == Claims0(s)
@@ -133,7 +138,9 @@ ApplyPerts(r) ==
   [Cur EXCEPT !.rev    = IF r = 1 \/ Has(r, "spec") THEN (IF rev < MaxRev THEN rev + 1 ELSE rev) ELSE rev,
               !.nonrev = IF Has(r, "nonrev") THEN nonrev + 1 ELSE nonrev,
               !.names  = IF Has(r, "scaledown") THEN Kids \ {Order[Len(Order)]} ELSE IF Has(r, "scaleup") THEN Kids ELSE names,
-              !.kid    = IF Has(r, "delkid") THEN [kid EXCEPT ![KidOf(r, "delkid")] = NoKid] ELSE kid]
+              !.kid    = IF Has(r, "delkid") THEN [kid EXCEPT ![KidOf(r, "delkid")] = NoKid]
+                         ELSE IF r = 1 /\ preset THEN [c \in Kids |-> IF kid[c].live THEN [kid[c] EXCEPT !.v = 2, !.og = IF @ = "none" THEN "none" ELSE "lag"] ELSE kid[c]]
+                         ELSE kid]
 Heal(k) == [c \in Kids |-> IF k[c].live /\ ~(policy = "stuck" /\ c = Order[1] /\ k[c].v > 1)
                            THEN [k[c] EXCEPT !.healthy = TRUE, !.og = IF policy \in {"noOG", "zeroOG", "strOG"} THEN "none" ELSE "ok"] ELSE k[c]]
 \* round 0 creates the children at revision 1; round 1 changes the revisioned field
@@ -143,7 +150,7 @@ Round ==
          e == SyncEffect(p) IN
      /\ rev' = p.rev /\ nonrev' = p.nonrev /\ names' = p.names
      /\ round' = round + 1
-     /\ UNCHANGED <<plan, method, checks, policy, owncond, scalerev, gensel>>
+     /\ UNCHANGED <<plan, method, checks, policy, owncond, scalerev, gensel, preset>>
      /\ revs' = e.revs /\ kid' = Heal(e.kid) /\ cond' = e.cond /\ last' = e.last
      /\ trace' = Append(trace, [cond |-> e.cond, moved |-> e.last.moved, gated |-> e.last.gated,
                                 claims |-> [r \in Revs |-> e.revs[r].names], live |-> { r \in Revs : e.revs[r].live },
@@ -173,7 +180,7 @@ C01_QuietWhenDone == [][(Done /\ round' > LastPert + 1) => (Done' => last'.write
 C07_StuckWaits == (policy = "stuck" /\ checks /\ round >= 4 /\ plan = <<>> /\ Len(Order) > 1) => cond # "OnLatest"
 
 Emit == (round = Rounds) =>
-  PrintT("SCN|" \o ToJson([order |-> Order, method |-> method, checks |-> checks, policy |-> policy, owncond |-> owncond, scalerev |-> scalerev, gensel |-> gensel, plan |-> plan,
+  PrintT("SCN|" \o ToJson([order |-> Order, method |-> method, checks |-> checks, policy |-> policy, owncond |-> owncond, scalerev |-> scalerev, gensel |-> gensel, preset |-> preset, plan |-> plan,
                            rounds |-> Rounds, trace |-> trace, done |-> Done, healthy |-> Healthy, lastPert |-> LastPert,
                            final |-> [rev |-> rev, nonrev |-> nonrev, names |-> Want(Cur)]]))
 =============================================================================
